@@ -628,6 +628,23 @@ class Translator:
                     raise Unsupported(n, f"default of getattr is not `{default_src}`")
                 return E(tpl.format(obj), ty)
             raise Unsupported(n, "getattr outside the subset")
+        if isinstance(f, ast.Name) and f.id in ("isinstance", "issubclass") and len(n.args) == 2 and not n.keywords and self.pure is not None \
+                and not self._module_binds(f.id):
+            # isinstance(e, T) / issubclass(e, T) with T a builtin type name or a tuple of such names (a tuple = any of them): the spec
+            # names, per record type of `e` and builtin type, what the test means on its abstract values
+            table = self.pure.isinstance if f.id == "isinstance" else self.pure.issubclass
+            t = n.args[1]
+            names = [t] if isinstance(t, ast.Name) else list(t.elts) if isinstance(t, ast.Tuple) else []
+            if table and names and all(isinstance(x, ast.Name) and x.id in self.BUILTIN_TYPES and x.id not in self.vt
+                                       and not self._module_binds(x.id) for x in names):
+                a = self.ex(n.args[0])
+                if a.ty is None:
+                    return E("_", BOOL)
+                rec = a.ty[1] if isinstance(a.ty, tuple) and a.ty[0] == "Rec" else None
+                missing = [x.id for x in names if (rec, x.id) not in table]
+                if rec is None or missing:
+                    raise Unsupported(n, f"{f.id} of a {lean_ty(a.ty)} against {missing or [x.id for x in names]}: not declared in the spec")
+                return E("(" + " ∨ ".join(table[(rec, x.id)].format(a.code) for x in names) + ")", BOOL)
         if isinstance(f, ast.Name) and f.id == "cast" and len(n.args) == 2 and not n.keywords:
             # typing.cast(T, e) returns e unchanged at run time; the type T is not consulted (the translator infers its own)
             if not self._imported_from("typing", "cast"):
@@ -673,6 +690,7 @@ class Translator:
 
     # builtins whose meaning on the abstract records of a `PureSpec` the spec has to name (`calls[(None, "isinstance")]`)
     SPEC_BUILTINS = {"isinstance"}
+    BUILTIN_TYPES = {"int", "float", "str", "bytes", "bytearray", "bool", "dict", "list", "tuple"}
 
     def _imported_from(self, module, name):
         for st in self.module.body:
@@ -1671,6 +1689,8 @@ class PureSpec:
     # records that stand for a Python dict: (record, int literal | NAT) -> {"contains": template, "getitem": (template, type, raises?)};
     # `{obj}` = the record, `{0}` = the key (typed entries only)
     keyed: dict = field(default_factory=dict)
+    isinstance: dict = field(default_factory=dict)   # (record, builtin type name) -> template of `isinstance({0}, <type>)`
+    issubclass: dict = field(default_factory=dict)   # (record, builtin type name) -> template of `issubclass({0}, <type>)`
     eq: dict = field(default_factory=dict)         # record -> template of Python's `==` on it (`{0}`, `{1}`: Bool-valued Lean term)
     enums: dict = field(default_factory=dict)      # plain `Enum` class -> (Lean inductive type, {member -> constructor}); ALL members
     open_ns: str = ""                              # further namespaces opened in the generated file
@@ -1725,6 +1745,9 @@ def translate_pure_function(src: str, func: str, spec: PureSpec, namespace: str,
         o.append(f"      {rec}.{at} ↔ {tpl.format('·') or at} : {lean_ty(ty)}")
     for (rec, at), (tpl, ty, dflt) in spec.getattr_defaults.items():
         o.append(f"      getattr({rec}, {at!r}, {dflt}) ↔ {tpl.format('·')} : {lean_ty(ty)}   (the attribute, or {dflt} for objects without it)")
+    for fname, table in (("isinstance", spec.isinstance), ("issubclass", spec.issubclass)):
+        for (rec, ty), tpl in table.items():
+            o.append(f"      {fname}({rec}, {ty}) ↔ {tpl.format('·')} : Bool")
     for rec, tpl in spec.eq.items():
         o.append(f"      {rec} == {rec} ↔ {tpl.format('‹a›', '‹b›')} : Bool   (None == None, a value never equals None: Py.optEq)")
     for (rec, k), ent in spec.keyed.items():
@@ -2053,6 +2076,56 @@ def render_scale_applies(repo: Path) -> str:
     return a + "\n" + b
 
 
+# ---- `RatFuncSegment.applies`, `LinearSegment.physical_applies` / `internal_applies`: the type test against
+# `<type>.python_type` and the two optional limits
+_DTYPE = ("Rec", "DType")
+_SEG_PRELUDE = [
+    "/-- `isinstance(v, int)` / `isinstance(v, float)` / `isinstance(v, t.python_type)` on the model's values; `DataType.python_type` is `int`",
+    "    for the integer types, `float` for the float types, `str` for the string types (a Python `bool` is not a value of the model) -/",
+    "def valIsInt : Val → Bool | .int _ => true | _ => false",
+    "def valIsFloat : Val → Bool | .flt _ => true | _ => false",
+    "def valIsInst (v : Val) (t : DType) : Bool :=",
+    "  match v with",
+    "  | .int _ => t.isInt",
+    "  | .flt _ => t.isFloat",
+    "  | .str _ => t = .str"]
+
+
+def _segment_spec(cls, param, binders, ty_attr, ty_term, lo_attr, lo_term, hi_attr, hi_term, prelude):
+    return PureSpec(
+        params={"self": (("Rec", cls), None), param: (_VAL, param)},
+        binders=binders,
+        attrs={(cls, ty_attr): (ty_term, _DTYPE), ("DType", "python_type"): ("{}", _DTYPE),
+               (cls, lo_attr): (lo_term, opt(_LIMIT)), (cls, hi_attr): (hi_term, opt(_LIMIT))},
+        calls={("Limit", "complies_to_lower"): ("(← compliesToLowerE {obj} {0})", [_VAL], BOOL, True),
+               ("Limit", "complies_to_upper"): ("(← compliesToUpperE {obj} {0})", [_VAL], BOOL, True),
+               (None, "isinstance"): ("(valIsInst {0} {1})", [_VAL, _DTYPE], BOOL, False)},
+        isinstance={("Val", "int"): "(valIsInt {0})", ("Val", "float"): "(valIsFloat {0})"},
+        issubclass={("DType", "float"): "({0}.isFloat)"},
+        prelude=prelude)
+
+
+def render_segment_applies(repo: Path) -> str:
+    rel1, rel2 = "odxtools/compumethods/ratfuncsegment.py", "odxtools/compumethods/linearsegment.py"
+    a = translate_pure_function((Path(repo) / rel1).read_text(), "applies",
+                                _segment_spec("RatFuncSegment", "value", "(s : RatSeg) (value : Val)", "domain_type", "s.domTy",
+                                              "lower_limit", "s.lo", "upper_limit", "s.hi", _SEG_PRELUDE),
+                                "OdxVerif.Compu.Gen", ["OdxVerif.Gen.CompuLimit"], rel1, cls_name="RatFuncSegment", lean_name="ratSegApplies")
+    b = translate_pure_function((Path(repo) / rel2).read_text(), "physical_applies",
+                                _segment_spec("LinearSegment", "physical_value", "(s : LinSeg) (physical_value : Val)", "physical_type", "s.pty",
+                                              "_physical_lower_limit", "s.plo", "_physical_upper_limit", "s.phi", []),
+                                "OdxVerif.Compu.Gen", [], rel2, cls_name="LinearSegment", lean_name="linSegPhysApplies")
+    c = translate_pure_function((Path(repo) / rel2).read_text(), "internal_applies",
+                                _segment_spec("LinearSegment", "internal_value", "(s : LinSeg) (internal_value : Val)", "internal_type", "s.ity",
+                                              "internal_lower_limit", "s.ilo", "internal_upper_limit", "s.ihi", []),
+                                "OdxVerif.Compu.Gen", [], rel2, cls_name="LinearSegment", lean_name="linSegIntApplies")
+    return a + "\n" + b + "\n" + c
+
+
+def regenerate_segment_applies(repo, verif):
+    return _write(Path(verif) / "lean" / "OdxVerif" / "Gen" / "CompuSegmentApplies.lean", render_segment_applies(Path(repo)))
+
+
 def regenerate_scale_applies(repo, verif):
     return _write(Path(verif) / "lean" / "OdxVerif" / "Gen" / "CompuScaleApplies.lean", render_scale_applies(Path(repo)))
 
@@ -2081,9 +2154,9 @@ if __name__ == "__main__":
     if len(sys.argv) > 2:
         for regen in (regenerate_isotp, regenerate_staticlen, regenerate_muxkey, regenerate_limit, regenerate_inherit_prio,
                       regenerate_itemkey, regenerate_odxlink_resolve, regenerate_required,
-                      regenerate_findsvc, regenerate_scale_applies):
+                      regenerate_findsvc, regenerate_scale_applies, regenerate_segment_applies):
             print(regen(repo, Path(sys.argv[2])))
     else:
         for render in (render_isotp, render_staticlen, render_muxkey, render_limit, render_inherit_prio, render_itemkey, render_odxlink_resolve, render_required,
-                       render_findsvc, render_scale_applies):
+                       render_findsvc, render_scale_applies, render_segment_applies):
             sys.stdout.write(render(repo))
